@@ -42,7 +42,7 @@ for patch in "$@"; do
   (cd "$SCR/verif" && ./check.sh "$prop" quick) >"$SCR/check.log" 2>&1
   rc=$?
   vline="$(grep -m1 '^VIOLATION ' "$SCR/check.log")"
-  class="$(grep -m1 '^  class=' "$SCR/check.log" | sed 's/^  //' | cut -c1-150)"
+  class="$(grep -m1 '^  class=' "$SCR/check.log" | sed 's/^  //' | cut -c1-400)"
   verdict=MISSED; rp="-"
   if [ $rc -eq 1 ] && [ -n "$vline" ]; then
     verdict=caught
